@@ -22,7 +22,7 @@ package proto
 //@ spec func poolWF(c *connection) bool = forall i int :: 0 <= i && i < len(c.pool) ==> c.pool[i] != nil
 //@ func (c *connection) send
 //@   props C12 C13
-//@   modifies buf.B
+//@   modifies buf.B, c.bytesOut, c.messagesOut, c.order
 //@   requires [frame] buf != nil && len(buf.B) >= 8 && buf.B[7] != protoMessageZ
 //@   requires [pool] poolWF(c)
 //@   at call Write assert [size_limit] c.peer_maxmessagesize > 0 ==> len(p) <= c.peer_maxmessagesize
